@@ -66,6 +66,7 @@ type Frame struct {
 	nextBlock int
 	beforeDefs []beforeDef
 	nextBefore int
+	srcTypes   map[string]types.Type
 }
 
 type beforeDef struct {
@@ -423,6 +424,10 @@ func (v *Verifier) symValue(prefix string, t types.Type, entry bool) Value {
 		return v.symSlice(prefix, u.Elem(), entry, false)
 	case *types.Interface:
 		return &IfaceV{T: nil, V: v.F.Var(prefix, mkSort("Iface"))}
+	case *types.Map:
+		o := v.newObject(prefix+" (map, contents not modelled)", t, entry)
+		o.Unmodelled = true
+		return &PtrV{Obj: o}
 	}
 	unsup("symbolic value of type %s", t)
 	return nil
@@ -447,6 +452,8 @@ func (v *Verifier) symSlice(prefix string, elem types.Type, entry bool, isStr bo
 		// slice of aggregates (nested slices, structs): the header is symbolic, the contents are not modelled;
 		// any access to an element is reported as outside the subset at that point
 		o := v.newObject(prefix+" (contents not modelled)", types.NewSlice(elem), entry)
+		o.Unmodelled = true
+		o.ElemType = elem
 		max := big.NewInt(1 << 40)
 		ln := v.F.RangedVar(prefix+"@len", big.NewInt(0), max)
 		cp := v.F.RangedVar(prefix+"@cap", big.NewInt(0), max)
@@ -490,14 +497,59 @@ func (v *Verifier) content(st *State, o *Object) Value {
 	return nil
 }
 
+// derefNonNil: for a conditional pointer with a nil alternative, the dereference obliges the nil case to be
+// unreachable and continues with the other alternative.
+func (fr *Frame) derefNonNil(st *State, q *IteV, what string) (Value, bool) {
+	F := fr.v.F
+	if a, ok := q.A.(*PtrV); ok && a.Obj == nil {
+		fr.oblige(st, "nil", F.Not(q.C), what+" of a possibly nil pointer")
+		st.pc = F.And(st.pc, F.Not(q.C))
+		return q.B, true
+	}
+	if b, ok := q.B.(*PtrV); ok && b.Obj == nil {
+		fr.oblige(st, "nil", q.C, what+" of a possibly nil pointer")
+		st.pc = F.And(st.pc, q.C)
+		return q.A, true
+	}
+	return nil, false
+}
+
+// content0: like content but returns nil instead of failing
+func (v *Verifier) content0(st *State, o *Object) Value {
+	if c, ok := st.mem[o]; ok {
+		return c
+	}
+	if c, ok := v.constObjs[o]; ok {
+		return c
+	}
+	if c, ok := v.initMem[o]; ok {
+		return c
+	}
+	return nil
+}
+
 func (fr *Frame) load(st *State, p Value) Value {
 	switch q := p.(type) {
 	case *IteV:
+		if nn, ok := fr.derefNonNil(st, q, "load"); ok {
+			return fr.load(st, nn)
+		}
 		return fr.v.mergeV(q.C, fr.load(st, q.A), fr.load(st, q.B))
 	case *PtrV:
 		if q.Obj == nil {
 			fr.oblige(st, "nil", fr.v.F.False(), "nil pointer dereference")
 			unsupPath()
+		}
+		if q.Obj.Unmodelled {
+			// element of a slice whose contents are not modelled: an arbitrary value of the element type
+			// (sound over-approximation; reachable from the same owner as the slice)
+			fr.v.fresh++
+			t := q.Obj.ElemType
+			if len(q.Path) > 1 {
+				t = fr.v.typeAtPath(t, q.Path[1:])
+			}
+			fr.v.assume("elements of slices of aggregates (e.g. [][]byte) are not modelled: every load yields an arbitrary value; stores into them are not tracked except for the escape check")
+			return fr.v.symValue(fmt.Sprintf("%s!elem!%d", sanitize(q.Obj.Name), fr.v.fresh), t, q.Obj.Entry)
 		}
 		return fr.v.getPath(fr.v.content(st, q.Obj), q.Path)
 	}
@@ -591,6 +643,10 @@ func (v *Verifier) setPath(c Value, path []PE, nv Value) Value {
 func (fr *Frame) store(st *State, p Value, nv Value, cond *Term) {
 	switch q := p.(type) {
 	case *IteV:
+		if nn, ok := fr.derefNonNil(st, q, "store"); ok {
+			fr.store(st, nn, nv, cond)
+			return
+		}
 		c1 := q.C
 		c2 := fr.v.F.Not(q.C)
 		if cond != nil {
@@ -605,6 +661,10 @@ func (fr *Frame) store(st *State, p Value, nv Value, cond *Term) {
 			unsupPath()
 		}
 		fr.v.noteWrite(fr, st, q.Obj, q.Path)
+		fr.v.noteEscape(fr, st, nv, q.Obj)
+		if q.Obj.Unmodelled {
+			return
+		}
 		old := fr.v.content(st, q.Obj)
 		upd := fr.v.setPath(old, q.Path, nv)
 		if cond != nil {
